@@ -35,6 +35,8 @@ func run(c *vlib.Ctx) error {
 		return runEdits(c)
 	case "C09":
 		return runFaults(c)
+	case "C03":
+		return runUnknown(c)
 	}
 	return fmt.Errorf("driver transition does not know property %q", c.Prop)
 }
@@ -48,7 +50,7 @@ func replay(c *vlib.Ctx) error {
 	switch c.Prop {
 	case "C16":
 		return replayLinks(c, begin)
-	case "C08", "C09":
+	case "C08", "C09", "C03":
 		return replayTransition(c, begin)
 	}
 	return fmt.Errorf("driver transition does not know property %q", c.Prop)
